@@ -420,8 +420,37 @@ fn check_zone_default_days(index: u64, acc: &mut Acc) {
     }
 }
 
+/// Exhaustive on a quarter-degree grid: the zone inferred from coordinates is the zone-finder's preferred answer for
+/// that point (the zone polygons shipped with tzf-rs are the source data, as the holiday files are for C10) — also
+/// where the finder knows several candidates (S-C11-i picks the alphabetically first one, which differs in one tile).
+fn check_zone_source_row(index: u64, acc: &mut Acc) {
+    static FINDER: std::sync::OnceLock<tzf_rs::DefaultFinder> = std::sync::OnceLock::new();
+    let finder = FINDER.get_or_init(tzf_rs::DefaultFinder::new);
+    let lat = -60.0 + index as f64 * 0.25;
+    for j in 0..1440 {
+        let lon = -180.0 + f64::from(j) * 0.25;
+        let Some(coords) = Coordinates::new(lat, lon) else { continue };
+        let got = TzLocation::from_coords(coords).get_timezone().name();
+        let preferred = finder.get_tz_name(lon, lat);
+        let expected = preferred.parse::<chrono_tz::Tz>().map(|tz| tz.name()).unwrap_or("UTC");
+        let several = finder.get_tz_names(lon, lat).len() > 1;
+        acc.case(several);
+        if several {
+            acc.label("point_with_several_candidate_zones");
+        }
+        if got != expected {
+            return acc.fail("ordering", format!("{lat} {lon} 2024-06-21"), format!("TzLocation::from_coords({lat}, {lon}) infers {got}, the zone finder's answer for that point is {preferred}"));
+        }
+    }
+}
+
 fn extra(_tier: Tier, _seed: u64) -> Vec<SubOutcome> {
     vec![par_enumerate(
+        "zone_source",
+        "exhaustive on a quarter-degree grid (latitudes -60..72, 761 760 points): the zone of TzLocation::from_coords equals the preferred answer of the tzf-rs zone finder for that point (UTC when chrono-tz does not know the name); non-trivial = the finder knows several candidate zones there",
+        529,
+        check_zone_source_row,
+    ), par_enumerate(
         "default_hours_on_transition_days",
         "exhaustive over the tz database: every offset transition 1900..2045 of each of the 596 zones x the local date of the transition, the day before and the day after x `dawn-sunrise`, `sunrise-sunset`, `sunset-dusk` under TzLocation::new(zone) (no coordinates): exactly 06:00-07:00, 07:00-19:00, 19:00-20:00; non-trivial = the transition skips 06:00, 07:00, 19:00 or 20:00",
         chrono_tz::TZ_VARIANTS.len() as u64,
